@@ -14,7 +14,8 @@ RULE = ("every set of entries after the leading host operator with, per correlat
         "on a stream, Event Sync / Context Sync on stream -1}, optionally a host op without correlation and a GPU "
         "annotation without correlation or an Event/Context Sync record without correlation id; x every file order (all permutations up to P entries, else identity, "
         "reversal, rotations) and x padding with metadata entries so that event ids exceed 127 / 255 / 32767 while "
-        "correlation ids stay small; plus a trimmed slice (2-3 profiler steps, launches at every position, so that the "
+        "correlation ids stay small; plus a slice with correlated host annotations whose names merely start with 'Event Sync' / "
+        "'Context Sync' (paired with a GPU annotation or a kernel); plus a trimmed slice (2-3 profiler steps, launches at every position, so that the "
         "loader drops events: links inside the loaded frame must stay mutual and point to present rows); checked after parse_trace_file and after load_traces. non-trivial = contains a "
         "linked pair and a missing partner or a stream -1 sync record")
 ASSUMPTIONS = [
@@ -58,7 +59,36 @@ def build(code: str, c: int, slot: int) -> Dict[str, Any]:
         e = kineto.cuda_sync("Context Sync" if slot % 2 else "Event Sync", ts + 1, 3, -1, 0)
         del e["args"]["correlation"]
         return e
+    if code in LOOKALIKE:   # host annotation whose name merely starts with the name of a device-level sync record
+        e = kineto.annotation(LOOKALIKE[code], ts, 2)
+        e["args"] = {"External id": c, "correlation": c}
+        return e
+    if code == "Q":   # the GPU annotation paired (by correlation id) with a host annotation
+        e = kineto.gpu_annotation("Context Sync barrier", ts + 1, 3, 7)
+        e["args"]["correlation"] = c
+        return e
     raise ValueError(code)
+
+
+LOOKALIKE = {"P1": "Context Sync barrier", "P2": "Event Synchronize wait"}
+
+
+def lookalike_worlds(b, stats):
+    """correlated host events named like (but not exactly as) Event Sync / Context Sync records"""
+    c1, c2 = 3, 4
+    for hp, dev, second, u in itertools.product(sorted(LOOKALIKE), ("Q", "K", None), (None, "LK", "NE"), (0, 1)):
+        ents = [build(hp, c1, 0)]
+        if dev:
+            ents.append(build(dev, c1, 1))
+        if second:
+            ents += [build(second[0], c2, 2), build(second[1], c2, 3)]
+        if u:
+            ents.append(build("U", -1, 4))
+        sig = f"lookalike:{hp}{dev or '-'}{second or '--'}{'U' if u else ''}"
+        for o in orders(len(ents), b["P"]):
+            stats["transitions"] += 1
+            yield dict(pattern=sig, corr=[c1, c2], order=o, pad=0,
+                       events=[kineto.cpu_op("aten::root", E0, 100, ext=0)] + [ents[k] for k in o])
 
 
 def orders(n: int, P: int) -> List[List[int]]:
@@ -72,6 +102,7 @@ def orders(n: int, P: int) -> List[List[int]]:
 def worlds(tier: str, stats: Dict[str, Any]) -> Iterator[Any]:
     b = bounds(tier)
     yield from trimmed_worlds(stats)
+    yield from lookalike_worlds(b, stats)
     for cs in b["corr_sets"]:
         c1, c2 = cs
         for h1, h2, d1, d2, hh, aa in itertools.product(HOST, HOST, DEV, DEV, (0, 1), (0, 1, 2)):
